@@ -1106,6 +1106,10 @@ func (vc *VC) closureCreationChecks(st *State, mc *ssa.MakeClosure, fn *ssa.Func
 		vc.oblige(pre, g, "callback-pre:"+r.Label, "subtype", site, clauseProps(r, vc.props()), "interface precondition implies closure precondition: "+r.Src, funcKey(fn))
 		pre.assume = append(pre.assume, g)
 	}
+	// a callback type that promises to terminate is only implemented by closures that do
+	if ic.Terminates && !calleeTerminates(cc) {
+		vc.oblige(pre, "false", "callback-terminates", "termination", site, vc.props(), "the closure is known to terminate (the contract it is handed out under says terminates)", funcKey(fn))
+	}
 	// measure: the caller of the interface method only sees the interface-level measure, so the closure's own measure
 	// may not exceed it
 	if len(ic.Decreases) > 0 {
@@ -1688,6 +1692,10 @@ func (vc *VC) execGo(st *State, g *ssa.Go) {
 	for _, li := range c.LockInvs {
 		gl := vc.trClause(env, li.Clause)
 		vc.oblige(st, gl, "lock-invariant-at-fork:"+li.Clause.Label, "thread", site, clauseProps(li.Clause, vc.props()), li.Clause.Src, ci.key)
+	}
+	if vc.effective != nil && vc.effective.Terminates && !calleeTerminates(c) {
+		// the parent waits for its threads: it only terminates if they do
+		vc.oblige(st, "false", "terminates:thread "+shortFuncKey(ci.key), "termination", site, vc.props(), "the forked thread is known to terminate (its contract says terminates)", ci.key)
 	}
 	if c.ThreadWG != nil {
 		wg := env.tr(c.ThreadWG)
